@@ -161,6 +161,27 @@ def run_c12(tier):
             viol.append((f"C12:R:pool-unusable-after-heal:{tag}", f"{res.get('after')}", a))
         if len(samples) < 3:
             samples.append(dict(case=a, tracker_pids=sorted(tps), heals=res["heals"]))
+    # signals during the tracker's start-up
+    for label in ("tracker.start", "tracker.sig_ignored", "tracker.unblocked"):
+        cases += 1
+        d = tempfile.mkdtemp(prefix="vfsig_")
+        tok = os.path.join(d, "tok")
+        r = runner.run("startup", dict(token=tok, scratch=os.path.join(d, "scratch.txt"), watchdog=60),
+                       [dict(label=label, process="tracker", nth=1, action="pause:" + tok)],
+                       timeout=80, module="vf.real.treescn")
+        res = r["result"]
+        if r["status"] != "ok" or not res:
+            viol.append((f"C12:R:scenario-failed:startup:{label}", f"{r['status']} {r['stdio'][-400:]}", label))
+        else:
+            if not res["reached"]:
+                viol.append((f"C12:R:scenario-failed:startup-not-reached:{label}", f"{res}", label))
+            if not res["alive"]:
+                viol.append((f"C12:R:signal-kills-tracker-at:{label}", f"{res}", label))
+            elif not res["works"]:
+                viol.append((f"C12:R:tracker-deaf-after-signal-at:{label}", f"{res}", label))
+            samples.append(dict(case=f"startup:{label}", observed=res))
+        import shutil
+        shutil.rmtree(d, ignore_errors=True)
     # end-of-life ordering
     for ending in ("sigkill", "exit"):
         cases += 1
